@@ -165,8 +165,11 @@ func runC10(word []string) (string, string) {
 	if eb.Ply() != g.Len() || eb.NoProgress() != g.CurClock() || eb.FullMoves() != g.CurFull() {
 		return "counters", fmt.Sprintf("after %q: ply %d clock %d moves %d; the last command describes ply %d clock %d moves %d", word, eb.Ply(), eb.NoProgress(), eb.FullMoves(), g.Len(), g.CurClock(), g.CurFull())
 	}
-	if g.DrawNow() != (eb.Result().Outcome == board.Draw) {
-		return "draw-state", fmt.Sprintf("after %q the game is drawn=%v, the last command describes drawn=%v", word, eb.Result().Outcome == board.Draw, g.DrawNow())
+	// drawn if a draw condition has just been met, not drawn if none was ever met in the described
+	// game; in between (a draw could have been claimed earlier and the game went on) the board keeps
+	// its earlier verdict, which C05 allows
+	if drawn := eb.Result().Outcome == board.Draw; (g.DrawNow() && !drawn) || (!g.AnyEvent() && drawn) {
+		return "draw-state", fmt.Sprintf("after %q the game is drawn=%v; the last command describes a game with a draw condition met now=%v / ever=%v", word, drawn, g.DrawNow(), g.AnyEvent())
 	}
 	// (2) differential: same as a fresh driver given only the last command
 	f := newSession()
@@ -198,6 +201,8 @@ func checkC10(c *harness.Check) {
 		"position startpos moves g1f3 g8f6 f3g1 f6g8",
 		"position startpos moves g1f3 g8f6 f3g1 f6g8 g1f3 g8f6 f3g1",
 		"position startpos moves g1f3 g8f6 f3g1 f6g8 g1f3 g8f6 f3g1 f6g8",
+		"position startpos moves g1f3 g8f6 f3g1 f6g8 g1f3 g8f6 f3g1 f6g8 e2e4", // the game goes on after a draw could have been claimed (third occurrence)
+		"position fen r3k2r/8/8/8/8/8/8/R3K2R w KQkq - 99 60 moves a1b1 a8b8",   // ... and after the hundredth half-move
 		"position startpos moves e2e4",
 		"position fen " + F,
 		"position fen " + F + " moves e1g1",
@@ -214,7 +219,7 @@ func checkC10(c *harness.Check) {
 		"position fen 2kr3r/8/8/8/8/8/8/R4RK1 w - - 2 2",                        // the very FEN `F moves e1g1 e8c8` reaches
 	}
 	maxLen := c.Pick(4, 5)
-	c.Rule = fmt.Sprintf("all command words of length <= %d over an alphabet of %d lines built from two games: startpos with move lists that extend one another (incl. a knight shuffle that brings the start position back two and three times), another first move, a FEN with move lists that extend one another (castling both sides), the same FEN with other clocks (a longer full-move number that makes one line a textual prefix of another, full-move number 0, a running half-move clock), two FENs that spell out exactly the position (and clocks) a moves line of the alphabet reaches, two FENs that differ only in the case of one letter, a line repeated with other white space between its tokens, and ucinewgame; verbatim repeats, shortenings and extensions all arise as words. Every line goes to a real uci.Driver followed by the isready/readyok hand-shake. Oracle after each word: driver alive; Engine.Position(), ply, clock, full moves, draw state equal the reference game of the LAST position command alone; full board snapshot equal to a fresh driver given only that command; every continuation to depth 2 on a fork reports draws exactly where the reference game does (the repetition history is compared, not just the position). distinct_nontrivial = distinct (last command, previous command) pairs", maxLen, len(alphabet))
+	c.Rule = fmt.Sprintf("all command words of length <= %d over an alphabet of %d lines built from two games: startpos with move lists that extend one another (incl. a knight shuffle that brings the start position back two and three times, and one that plays on after the third time; a line that plays on after the hundredth half-move), another first move, a FEN with move lists that extend one another (castling both sides), the same FEN with other clocks (a longer full-move number that makes one line a textual prefix of another, full-move number 0, a running half-move clock), two FENs that spell out exactly the position (and clocks) a moves line of the alphabet reaches, two FENs that differ only in the case of one letter, a line repeated with other white space between its tokens, and ucinewgame; verbatim repeats, shortenings and extensions all arise as words. Every line goes to a real uci.Driver followed by the isready/readyok hand-shake. Oracle after each word: driver alive; Engine.Position(), ply, clock, full moves, draw state equal the reference game of the LAST position command alone; full board snapshot equal to a fresh driver given only that command; every continuation to depth 2 on a fork reports draws exactly where the reference game does (the repetition history is compared, not just the position). distinct_nontrivial = distinct (last command, previous command) pairs", maxLen, len(alphabet))
 	var words [][]string
 	var gen func(w []string)
 	gen = func(w []string) {
